@@ -99,6 +99,12 @@ Definition lift_merge {A} (x : Merge.result A) : res A :=
 Definition requires (e : env) (d : dist) (extra : option string) : res (list req) :=
   lift_merge (reduce (filter (fun r => req_uses_extra e r extra) (dreqs d))).
 
+Fixpoint collect_requires (e : env) (d : dist) (extras : list (option string)) : res (list req) :=
+  match extras with
+  | [] => Rok []
+  | x :: xs => rs <- requires e d x ;; rest <- collect_requires e d xs ;; Rok (rs ++ rest)
+  end.
+
 (* ---- DependencyNode.extras ---- *)
 Fixpoint extras_from (g : graph) (id : nat) (rds : list nat) : res (list string) :=
   match rds with
@@ -300,17 +306,17 @@ Fixpoint add_dist (fuel : nat) (e : env) (g : graph) (nm : string) (md : option 
             n3 <- getn g3 id ;;
             let g' := setn g3 id (mkNode (nkey n3) (Some m) (ndeps n3) (nrdeps n3) (ncomplete n3)) in
             ex <- node_extras g' id ;;
+            (* (after the /repo fix that combines the reasons of one edge) all requirements that apply under
+               None and the requested extras are collected first and reduced to one requirement per project;
+               each project is then added once, with the combined requirement as the edge reason *)
+            all <- collect_requires e m (extras_iteration e ex) ;;
+            rs <- lift_merge (reduce all) ;;
             fold_left
-              (fun acc extra =>
-                 '(ga, na) <- acc ;;
-                 rs <- requires e m extra ;;
-                 fold_left
-                   (fun acc2 r =>
-                      '(gb, nb) <- acc2 ;;
-                      '(gc, nc) <- add_dist f e gb (rname r) None (Some id) (Some r) ;;
-                      Rok (gc, nb ++ nc))
-                   rs (Rok (ga, na)))
-              (extras_iteration e ex) (Rok (g', [id]))
+              (fun acc r =>
+                 '(gb, nb) <- acc ;;
+                 '(gc, nc) <- add_dist f e gb (rname r) None (Some id) (Some r) ;;
+                 Rok (gc, nb ++ nc))
+              rs (Rok (g', [id]))
         end ;;
       g5 <- discard f g4 id reason ;;
       n5 <- getn g5 id ;;
